@@ -5,7 +5,10 @@ use std::{collections::BTreeMap, path::PathBuf, time::Instant};
 
 use crate::explore::{Stats, ViolationRec};
 
-pub const VERIF_DIR: &str = "/verif";
+/// Root of the verification tree (evidence, known findings). `bin/check` sets VERIF_ROOT to its own location.
+pub fn verif_dir() -> String {
+    std::env::var("VERIF_ROOT").unwrap_or_else(|_| "/verif".to_string())
+}
 
 #[derive(Debug, Clone, Copy, PartialEq, Eq)]
 pub enum Tier {
@@ -38,7 +41,7 @@ pub struct KnownFile {
 }
 
 pub fn load_known() -> KnownFile {
-    let path = format!("{VERIF_DIR}/known_findings.json");
+    let path = format!("{}/known_findings.json", verif_dir());
     match std::fs::read_to_string(&path) {
         Ok(s) => serde_json::from_str(&s).unwrap_or_else(|e| {
             eprintln!("cannot parse {path}: {e}");
@@ -127,7 +130,7 @@ impl Report {
             let what = known.iter().find(|k| &k.signature == sig).map(|k| k.what.as_str()).unwrap_or("");
             println!("KNOWN-FINDING: property={} signature={} {} [scenario {}]", self.prop, sig, what, v.scenario);
         }
-        let _ = std::fs::create_dir_all(format!("{VERIF_DIR}/evidence/replays"));
+        let _ = std::fs::create_dir_all(format!("{}/evidence/replays", verif_dir()));
         let mut printed = std::collections::BTreeSet::new();
         for v in &unknown {
             if !printed.insert(v.finding.sig.clone()) {
@@ -141,7 +144,7 @@ impl Report {
                 format!("{:?}", v.deviations).hash(&mut h);
                 h.finish()
             };
-            let path = format!("{VERIF_DIR}/evidence/replays/{}-{:016x}.json", self.prop, h);
+            let path = format!("{}/evidence/replays/{}-{:016x}.json", verif_dir(), self.prop, h);
             let body = json!({
                 "property": v.finding.prop,
                 "checked_by": self.prop,
@@ -208,7 +211,7 @@ impl Report {
             "wall_s": self.started.elapsed().as_secs_f64(),
             "violations": unknown.len(),
         });
-        let path = PathBuf::from(format!("{VERIF_DIR}/evidence/{}.json", self.prop));
+        let path = PathBuf::from(format!("{}/evidence/{}.json", verif_dir(), self.prop));
         if let Err(e) = std::fs::write(&path, serde_json::to_string_pretty(&ev).unwrap()) {
             println!("MACHINERY-ERROR cannot write evidence: {e}");
             exit = 2;
